@@ -162,5 +162,5 @@ META = {
     "note": "fairbottleneck and bmf are judged by the verified checker only (no algorithm model). Not covered: NONLINEAR callbacks, solves inside full "
             "simulations (Host::get_load / Link::get_usage), floating-point rounding beyond the stated tolerance.",
     "technique": "Coq proof (progressive-filling invariant over Q) + extracted-model differential correspondence + verified allocation checker",
-    "claimed": False,
+    "claimed": True,
 }
